@@ -10,6 +10,7 @@ LEVEL = "proof"
 COQ_FILES = ["Tie/C17_defs.v", "Tie/C17_tie.v", "Props/C17_props.v"]
 PROPS_FILES = ["C17_props.v"]
 TRUSTED_BASE = [
+    "vlib/symex.py (symbolic execution of the translated Python subset on the ast: the translator reads value / outcome trees, so local names, intermediates, helpers and the form of branches do not matter; its assumptions - pure expressions, opaque calls, no aliasing writes, try handlers not modelled - are listed in DESIGN.md 12.7; fail-closed)",
     "py2gallina unit 'shapes': the padding arithmetic of NormUnetModel2d/3d.pad and unpad, pad_to_pow_of_2 and the crop of UnetModel3d.forward, the padding-index maps of UnetModel2d/3d.forward, MWCNN.pad and DUB.pad, and crop_to_shape are regenerated as Gallina over Z on every run; everything else in those methods must match a fixed statement pattern or the translation fails closed",
     "the layer sequence of UnetModel2d / UnetModel3d is regenerated from the constructor (module lists with multiplicities 1 and num_pool_layers - 1, Conv / ConvTranspose hyperparameters) and the two loops of forward, and proved equal to the modelled program for every depth",
     "coq/Model/C17.v (hand model): the layer sequences of MWCNN, DUB and DIDN as shape programs; tied to the modules by the shape-trace correspondence (forward hooks on every convolution / transposed convolution / DWT / IWT / PixelShuffle of the real modules), not by translation",
